@@ -1,6 +1,7 @@
 /* C09 (chain accounting), C10 (delivery independence), C17 (integer PCM), C19 (lapped seeks),
    C20 (half-rate) monitors on encoder-made chained streams. */
 #include "common.h"
+#include "spec.h"
 #include <math.h>
 
 typedef struct { OggVorbis_File vf; memsrc_t ms; int open; } handle_t;
@@ -231,6 +232,16 @@ static void case_c17(const drvargs_t *a,long id){
   for(int i=0;i<cd.nlinks;i++){ int s=(int)rng_below(&r,4); cd.cfg[i].sig= s==0?SIG_OVER: s==1?SIG_ALT: s==2?SIG_NOISE:cd.cfg[i].sig; }
   if(id%9==0){ cd.nlinks=1; cd.cfg[0].channels= (id%18==0)?255:(int)rng_range(&r,9,64); cd.cfg[0].nsamples=rng_range(&r,600,3000); cd.cfg[0].rate=44100; }
   chain_describe(&cd,desc,sizeof desc);
+  if(id%5==3){
+    /* crafted stream from the Vorbis I model: decoded values far outside +-1 (up to ~1e9), any channel count/block size */
+    extern void sp_set_gen_amp(double a);
+    static const double amps[]={3.0,40.0,4e4,7e4,1e6,3e9}; double amp=amps[rng_below(&r,6)];
+    sp_set_gen_amp(amp); sp_setup *S=sp_gen_setup(&r,(int)rng_below(&r,SP_NPROFILES),1); sp_set_gen_amp(1.0);
+    pktlist_t pk; pktlist_init(&pk); int np=(int)rng_range(&r,6,30); if(((long)S->channels<<S->bs1exp)>(1L<<17)) np=6;
+    sp_gen_stream(&r,S,np,&pk,(int)rng_below(&r,2)); mux_stream(&pk,4242,(int)rng_below(&r,PAGE_NKINDS),(int)rng_range(&r,1,9000),rng_next(&r),&phys);
+    snprintf(desc,sizeof desc,"model-made stream ch=%d bs=%d/%d amplitude scale %.3g, %d packets",S->channels,1<<S->bs0exp,1<<S->bs1exp,amp,np);
+    pktlist_free(&pk); sp_free_setup(S);
+  } else
   if(build_chain(&cd,&phys,NULL)){ res_sample("encoder refused: %s",desc); res_end(); buf_free(&phys); return; }
   vh_dump("stream.ogg",phys.p,phys.n);
   handle_t A,B; if(h_open(&A,phys.p,phys.n,1)||h_open(&B,phys.p,phys.n,1)){ res_viol("C17","open-failed","%s",desc); h_close(&A); h_close(&B); res_end(); buf_free(&phys); return; }
@@ -347,6 +358,56 @@ static int verify_hr(OggVorbis_File *vf,const refdec_t *ref,int hs,rng_t *r,int 
     if(after!=before+((ogg_int64_t)got<<hs) && !(hs && after==L->start+((ogg_int64_t)cu->idx<<hs))){ res_viol("C20","tell-advance","%s: hs=%d %lld -> %lld after %ld samples",ctx,hs,(long long)before,(long long)after,got); return -1; }
   }
   return 0;
+}
+/* C20 refusal clause: a file in which some link has 64-sample short blocks must refuse half-rate and stay exactly as it was */
+static void case_c20r(const drvargs_t *a,long id){
+  rng_t r; rng_seed(&r,a->seed,201,(uint64_t)id);
+  res_begin(id);
+  buf_t phys; buf_init(&phys); char desc[400]; size_t k=0; int nl=(int)rng_range(&r,1,4); int pos64=(int)rng_below(&r,(uint32_t)nl);
+  k+=snprintf(desc+k,sizeof desc-k,"links=%d, link %d model-made with 64-sample short blocks:",nl,pos64);
+  for(int i=0;i<nl;i++){
+    pktlist_t pk; pktlist_init(&pk); encres_t er; int enc=0;
+    if(i==pos64){
+      sp_setup *S=NULL; for(int t=0;t<200;t++){ S=sp_gen_setup(&r,3,1); if(S->bs0exp==6 && S->channels<=8) break; sp_free_setup(S); S=NULL; }
+      if(!S){ res_sample("no 64-block setup drawn"); res_end(); buf_free(&phys); return; }
+      sp_gen_stream(&r,S,(int)rng_range(&r,6,40),&pk,(int)rng_below(&r,2));
+      k+=snprintf(desc+k,sizeof desc-k," [model ch%d bs%d/%d]",S->channels,1<<S->bs0exp,1<<S->bs1exp); sp_free_setup(S);
+    } else {
+      enccfg_t c; enccfg_default(&c); c.channels=(int)rng_range(&r,1,2); c.rate= rng_chance(&r,0.5)?44100:22050; c.nsamples=rng_range(&r,2000,9000); c.sigseed=rng_next(&r); c.quality=(float)rng_unit(&r);
+      if(enc_run(&c,&er)){ encres_free(&er); continue; } pk=er.pk; enc=1; k+=snprintf(desc+k,sizeof desc-k," [enc ch%d N=%ld]",c.channels,c.nsamples);
+    }
+    (void)enc; mux_stream(&pk,1000+i*17+(int)(id&0xffff),(int)rng_below(&r,PAGE_NKINDS),(int)rng_range(&r,1,8000),rng_next(&r),&phys); pktlist_free(&pk);
+  }
+  vh_dump("stream.ogg",phys.p,phys.n);
+  handle_t A,B;
+  if(h_open(&A,phys.p,phys.n,1)||h_open(&B,phys.p,phys.n,1)){ res_viol("C20","refusal:open-failed","%s",desc); h_close(&A); h_close(&B); buf_free(&phys); res_end(); return; }
+  ogg_int64_t T=ov_pcm_total(&A.vf,-1);
+  for(int round=0;round<6 && !res_nviol();round++){
+    /* bring both to the same position by the same history */
+    ogg_int64_t p= T>0?(ogg_int64_t)rng_range(&r,0,(long)T-1):0; if(round==0) p=0;
+    int sa=ov_pcm_seek(&A.vf,p), sb=ov_pcm_seek(&B.vf,p); if(sa||sb){ if(sa!=sb) res_viol("C20","refusal:twins-diverge","seek %d vs %d",sa,sb); continue; }
+    { float **pa,**pb; int ba,bb; long n=rng_range(&r,0,700); long ga= n?ov_read_float(&A.vf,&pa,(int)n,&ba):0; long gb= n?ov_read_float(&B.vf,&pb,(int)n,&bb):0; if(ga!=gb) res_viol("C20","refusal:twins-diverge","read %ld vs %ld",ga,gb); }
+    ogg_int64_t before=ov_pcm_tell(&B.vf);
+    int rh=ov_halfrate(&B.vf,1); res_eval(1);
+    if(rh==0){ res_viol("C20","halfrate-accepted-with-64-sample-blocks","ov_halfrate(1) returned 0: %s",desc); break; }
+    if(ov_halfrate_p(&B.vf)!=0) res_viol("C20","refused-but-flag-left-set","ov_halfrate returned %d but ov_halfrate_p says %d: %s",rh,ov_halfrate_p(&B.vf),desc);
+    if(ov_pcm_tell(&B.vf)!=before) res_viol("C20","refused-but-position-moved","tell %lld -> %lld: %s",(long long)before,(long long)ov_pcm_tell(&B.vf),desc);
+    if(ov_pcm_total(&B.vf,-1)!=T) res_viol("C20","refused-but-total-changed","%lld vs %lld",(long long)ov_pcm_total(&B.vf,-1),(long long)T);
+    /* full-rate decoding intact at the same position: identical to the twin that never asked */
+    long want=rng_range(&r,500,6000), got=0;
+    while(got<want){
+      float **pa,**pb; int ba=-1,bb=-1; long ga=ov_read_float(&A.vf,&pa,512,&ba); long gb=ov_read_float(&B.vf,&pb,(int)(ga>0?ga:512),&bb);
+      if(ga<=0||gb<=0){ if(ga!=gb) res_viol("C20","refused-but-decode-differs","read returns %ld vs %ld after the refusal: %s",ga,gb,desc); break; }
+      if(gb!=ga||ba!=bb){ res_viol("C20","refused-but-decode-differs","count/link %ld/%d vs %ld/%d",ga,ba,gb,bb); break; }
+      int ch=ov_info(&A.vf,ba)->channels; int bad=0;
+      for(int c=0;c<ch&&!bad;c++) if(memcmp(pa[c],pb[c],sizeof(float)*ga)){ res_viol("C20","refused-but-decode-differs","audio differs from the handle that never asked (link %d ch %d) after the refusal: %s",ba,c,desc); bad=1; }
+      if(bad) break; got+=ga;
+      if(ov_pcm_tell(&A.vf)!=ov_pcm_tell(&B.vf)){ res_viol("C20","refused-but-position-moved","tells %lld vs %lld",(long long)ov_pcm_tell(&A.vf),(long long)ov_pcm_tell(&B.vf)); break; }
+    }
+    if(!res_nviol()) res_bucket("refusal|links%d|pos%d|%s",nl,pos64,round==0?"at-start":"mid-stream");
+  }
+  res_sample("%s",desc);
+  h_close(&A); h_close(&B); buf_free(&phys); res_end();
 }
 static void case_c20(const drvargs_t *a,long id){
   rng_t r; rng_seed(&r,a->seed,20,(uint64_t)id);
@@ -620,7 +681,7 @@ int main(int argc,char **argv){
     else if(!strcmp(a.mode,"c10")) case_c10(&a,i);
     else if(!strcmp(a.mode,"c17")) case_c17(&a,i);
     else if(!strcmp(a.mode,"c19")) case_c19(&a,i);
-    else if(!strcmp(a.mode,"c20")) case_c20(&a,i);
+    else if(!strcmp(a.mode,"c20")){ if(i%8==7) case_c20r(&a,i); else case_c20(&a,i); }
     else { fprintf(stderr,"unknown mode\n"); return 2; }
   }
   return 0;
